@@ -659,6 +659,12 @@ def fake_http(resp):
             if method == "POST" and uri == "/pair-verify" and raw[:4] == b"\x00\x00\x00\x00" and len(raw) == 68:
                 self.log.append((method, uri, "legacy-verify"))
                 return HttpResponse(proto, ver, 200, "OK", hdrs, b"")
+            if method == "GET" and uri == "/info":
+                # unauthenticated information query (RAOP asks before it verifies)
+                import plistlib
+                self.log.append((method, uri, "info"))
+                return HttpResponse(proto, ver, 200, "OK", dict(hdrs, **{"content-type": "application/x-apple-binary-plist"}),
+                                    plistlib.dumps({}, fmt=plistlib.FMT_BINARY))
             if not (method == "POST" and uri == "/pair-verify"):
                 self.log.append((method, uri.split("/")[-1] if uri.startswith("rtsp://") else uri, "other"))
                 hdrs.update({"Transport": "RTP/AVP/UDP;unicast;mode=record;control_port=1;timing_port=2;server_port=3", "Session": "1"})
@@ -1561,12 +1567,13 @@ def stream_errors(case, res):
     AuthenticationError and nothing further is sent to it."""
     st, o, j = case["stream"], res["obs"][0], res["judge"]
     fam = "airplay-" + st["version"]
-    first = o["log"][0][2] if o["log"] else None
+    reqs = [x for x in o["log"] if x[2] != "info"]
+    first = reqs[0][2] if reqs else None
     errs = []
     if st["stored"] == "legacy":
         if o["used"] and first != "legacy-verify":
             errs.append(("C06:%s:verify-exchange-skipped" % fam,
-                         "%s with stored legacy credentials sent %s without running the legacy device verification first" % (o["proto"], o["log"][0][:2])))
+                         "%s with stored legacy credentials sent %s without running the legacy device verification first" % (o["proto"], reqs[0][:2])))
         return errs
     if st["stored"] != "hap":
         return errs
@@ -1575,7 +1582,7 @@ def stream_errors(case, res):
                      "%s with stored HAP credentials went on to use the accessory (%s) although it did not prove the paired identity (%s)"
                      % (o["proto"], ", ".join("%s %s" % x[:2] for x in o["log"] if x[2] == "other")[:120], j["why"])))
     if o["used"] and first != "hap-verify":
-        errs.append(("C06:%s:verify-exchange-skipped" % fam, "%s: first request on the connection was %s, not the HAP pair-verify" % (o["proto"], o["log"][0][:2])))
+        errs.append(("C06:%s:verify-exchange-skipped" % fam, "%s: first request on the connection was %s, not the HAP pair-verify" % (o["proto"], reqs[0][:2])))
     if not o["used"] and not j["genuine"] and o["surfaced"] != "EAuthentication":
         errs.append(("C06:%s:wrong-exception" % fam,
                      "%s: a reply that does not prove the identity (%s) surfaced as %s instead of AuthenticationError" % (o["proto"], j["why"], o["surfaced_repr"])))
@@ -1600,6 +1607,20 @@ def coq_stream_case(W, case, res, nm):
     return "(%s, %s, %s, %s, %s, [%s])" % (h, c, tab, t(res["pd"]), t(m4_of(case["spec"])), ob)
 
 
+def coq_facade_files(items, per=400):
+    files = []
+
+    def opte(e):
+        return "None" if e is None else "(Some %s)" % e
+
+    for i in range(0, len(items), per):
+        chunk = items[i:i + per]
+        terms = ["([%s], %s)" % ("; ".join(opte(e) for _, e in r["facade"]["ran"]), opte(r["facade"]["connect"])) for _, _, r in chunk]
+        txt = COQ_PRELUDE + "Definition cases : list fcase := [\n%s\n].\nEval vm_compute in (bad_indices check_facade cases).\n" % ";\n".join(terms)
+        files.append(("facade_%03d" % (i // per), txt, chunk))
+    return files
+
+
 def coq_stream_files(items, per=100):
     files = []
     for i in range(0, len(items), per):
@@ -1613,6 +1634,285 @@ def coq_stream_files(items, per=100):
                % (nm.preamble(), ";\n".join(terms)))
         files.append(("stream_%03d" % (i // per), txt, chunk))
     return files
+
+
+# --------------------------------------------------------------------------- the whole pyatv.connect()
+ROLE_SPEC = {"genuine": {}, "impostor": {"eph": "M", "signer": "B"}}
+UNIFIED = 1 << 30
+
+
+def facade_service(W, d):
+    from pyatv.const import Protocol
+    from pyatv.core import MutableService
+    creds = W.creds_str() if d.get("creds", "hap") == "hap" else None
+    if d["proto"] == "mrp":
+        return MutableService("mrp-id", Protocol.MRP, 49152, {}, credentials=creds)
+    if d["proto"] == "companion":
+        return MutableService("companion-id", Protocol.Companion, 49153, {}, credentials=creds)
+    if d["proto"] == "raop":
+        return MutableService("raop-id", Protocol.RAOP, 7000, dict(d.get("props", {})), credentials=None)
+    kind = d.get("kind", "plain")
+    if kind == "tunnel":
+        props = {"model": "AppleTV6,2", "osvers": "14.5", "features": "0x4A7FCA00,0xBC354BD0"}
+    elif kind == "unified":
+        props = {"model": d.get("model", "AirPort10,115"), "features": d["features"]}
+    else:
+        props = {"features": "0x0"}
+        creds = None
+    return MutableService("airplay-id", Protocol.AirPlay, 7000, props, credentials=creds)
+
+
+def stream_version_of(features):
+    v = feature_value(features)
+    return "v2" if isinstance(v, int) and v & ((1 << 38) | (1 << 48)) else "v1"
+
+
+async def drive_facade(W, case, resps, pt):
+    """pyatv.connect(config) with the services of the case, each answered by its own accessory;
+    optionally atv.stream.stream_file() afterwards (the RAOP service embedded in AirPlay)."""
+    import pyatv
+    from pyatv import conf
+    from pyatv.core.facade import FacadeAppleTV
+    from pyatv.protocols import mrp as mrp_mod, raop as raop_mod
+    from pyatv.protocols.airplay import ap2_session
+    from pyatv.protocols.companion import api as comp_api
+    from pyatv.protocols.companion.connection import FrameType
+    from pyatv.protocols.mrp import messages, protobuf
+    from pyatv.protocols.mrp.connection import AbstractMrpConnection
+    from pyatv.settings import InfoSettings
+    from pyatv.support import opack
+
+    loop = asyncio.get_event_loop()
+    conns = {}
+
+    class MrpConn(AbstractMrpConnection):
+        def __init__(self, host=None, port=None, loop=None, atv=None):
+            super().__init__()
+            self.keys, self.closed, self.resp = [], 0, resps["mrp"]
+            conns["mrp"] = self
+
+        async def connect(self):
+            pass
+
+        def enable_encryption(self, output_key, input_key):
+            self.keys.append((output_key, input_key))
+
+        @property
+        def connected(self):
+            return not self.closed
+
+        def close(self):
+            self.closed += 1
+
+        def send(self, message):
+            reply = None
+            if message.type == protobuf.CRYPTO_PAIRING_MESSAGE:
+                ans = self.resp.on_message(message.inner().pairingData)
+                if ans is None:
+                    return
+                reply = messages.create(protobuf.CRYPTO_PAIRING_MESSAGE)
+                reply.inner().pairingData = ans
+                reply.inner().status = 0
+            elif message.type == protobuf.DEVICE_INFO_MESSAGE:
+                reply = messages.device_information(InfoSettings(), "accessory")
+                reply.identifier = message.identifier
+            elif message.identifier:
+                reply = messages.create(protobuf.GENERIC_MESSAGE)
+                reply.identifier = message.identifier
+            if reply is not None and self.listener is not None:
+                loop.call_soon(self.listener.message_received, reply, None)
+
+    class CompConn:
+        def __init__(self, loop=None, host=None, port=None, device_listener=None):
+            self.keys, self.listener, self.resp = [], None, resps["companion"]
+            conns["companion"] = self
+
+        def set_listener(self, listener):
+            self.listener = listener
+
+        async def connect(self):
+            pass
+
+        def close(self):
+            pass
+
+        @property
+        def connected(self):
+            return True
+
+        def enable_encryption(self, output_key, input_key):
+            self.keys.append((output_key, input_key))
+
+        def send(self, frame_type, data):
+            obj, _ = opack.unpack(data)
+            if frame_type in (FrameType.PV_Start, FrameType.PV_Next):
+                ans = self.resp.on_message(obj.get("_pd", b""))
+                if ans is not None:
+                    loop.call_soon(self.listener.frame_received, FrameType.PV_Next, opack.pack({"_pd": ans}))
+            elif isinstance(obj, dict) and "_x" in obj and obj.get("_t") == 2:
+                loop.call_soon(self.listener.frame_received, frame_type, opack.pack({"_x": obj["_x"], "_t": 3, "_c": {}}))
+
+    def http_for(name):
+        async def http_connect(address, port):
+            c = fake_http(resps[name])
+            conns.setdefault(name, []).append(c)
+            c.initial = (c.receive_processor, c.send_processor)
+            return c
+        return http_connect
+
+    ran = []
+    orig_add = FacadeAppleTV.add_protocol
+
+    def add_protocol(self, sd):
+        async def connect():
+            try:
+                r = await sd.connect()
+            except BaseException as ex:  # noqa
+                ran.append((sd.protocol.name, classify(ex)))
+                raise
+            ran.append((sd.protocol.name, None))
+            return r
+        return orig_add(self, sd._replace(connect=connect))
+
+    saved = (mrp_mod.MrpConnection, comp_api.CompanionConnection, ap2_session.http_connect, raop_mod.http_connect)
+    mrp_mod.MrpConnection, comp_api.CompanionConnection = MrpConn, CompConn
+    ap2_session.http_connect, raop_mod.http_connect = http_for("airplay"), http_for("raop-stream")
+    FacadeAppleTV.add_protocol = add_protocol
+    config = conf.AppleTV("127.0.0.1", "verif")
+    for d in case["facade"]["services"]:
+        config.add_service(facade_service(W, d))
+    out = {"connect": None, "connect_repr": None, "returned_device": False, "ran": ran, "stream": None}
+    atv = None
+    try:
+        try:
+            atv = await pyatv.connect(config, loop)
+            out["returned_device"] = True
+        except BaseException as ex:  # noqa
+            out["connect"], out["connect_repr"] = classify(ex), repr(ex)[:160]
+        out["raw_connect"] = [(r[2], "Accept" if r[0] == "ok" else classify(r[1])) for r in pt.raw]
+        nraw = len(pt.raw)
+        if atv is not None and case["facade"].get("stream"):
+            exc = None
+            try:
+                await asyncio.wait_for(atv.stream.stream_file("/nonexistent/harness.mp3"), 120)
+            except BaseException as ex:  # noqa
+                exc = ex
+            c = (conns.get("raop-stream") or [None])[-1]
+            o = obs_record("airplay-embedded-raop", resps["raop-stream"], pt, exc,
+                           c is not None and (c.receive_processor is not c.initial[0] or c.send_processor is not c.initial[1]))
+            if len(pt.raw) == nraw:
+                o["raw"] = o["procedure"] = None
+            o["log"] = list(c.log) if c is not None else []
+            o["used"] = any(k == "other" for _, _, k in o["log"])
+            o["surfaced_before_use"] = None if o["used"] else o["surfaced"]
+            out["stream"] = o
+    finally:
+        mrp_mod.MrpConnection, comp_api.CompanionConnection, ap2_session.http_connect, raop_mod.http_connect = saved
+        FacadeAppleTV.add_protocol = orig_add
+        if atv is not None:
+            try:
+                tasks = atv.close()
+                if tasks:
+                    await asyncio.wait(tasks)
+            except Exception:
+                pass
+    keys = {}
+    for name, c in conns.items():
+        if isinstance(c, list):
+            keys[name] = any(x.receive_processor is not x.initial[0] or x.send_processor is not x.initial[1] for x in c)
+        else:
+            keys[name] = bool(c.keys)
+    out["keys"] = keys
+    return out
+
+
+def evaluate_facade(W, case):
+    roles = {}
+    for d in case["facade"]["services"]:
+        name = {"mrp": "mrp", "companion": "companion", "airplay": "airplay", "raop": "raop"}[d["proto"]]
+        roles[name] = d.get("role", "dummy")
+    resps = {n: Responder(W, ROLE_SPEC.get(roles.get(n, "dummy"), {})) for n in ("mrp", "companion", "airplay")}
+    resps["raop-stream"] = Responder(W, ROLE_SPEC.get(case["facade"].get("stream_role", "impostor"), {}))
+    with Patches(W) as pt:
+        for r in resps.values():
+            r.shim = pt.shim
+        f = vloop.run(drive_facade, W, case, resps, pt)
+    res = {"obs": [], "v1": None, "judge": None, "pd": None, "cpub": None, "cpriv": None, "harness_error": None, "facade": f, "roles": roles}
+    o = f["stream"]
+    if o is not None:
+        res["obs"] = [o]
+        if o["cpub"] is not None and o["cpriv"] is not None and o["raw"] is not None:
+            pd = respond(W, resps["raop-stream"].specs[0], o["cpub"])
+            res.update(pd=pd, cpub=o["cpub"], cpriv=o["cpriv"], judge=judge(W, None, o["cpriv"], o["cpub"], pd))
+        else:
+            res["judge"] = {"genuine": False, "why": "no HAP pair-verify exchange took place", "tables": None, "fields": None}
+    return res
+
+
+def facade_errors(case, res):
+    """pyatv.connect(): a refused verification of ANY queued protocol makes connect raise
+    AuthenticationError, no device is returned, the refused protocol has no keys; the embedded RAOP
+    stream of an AirPlay service with stored HAP credentials verifies for them before anything else."""
+    f, errs = res["facade"], []
+    refused = [(p, e) for p, e in f["ran"] if e is not None]
+    impostors = [n for n, r in res["roles"].items() if r == "impostor"]
+    failed_verify = [x for x in f.get("raw_connect", []) if x[1] not in ("Accept", "ReturnedFalse")]
+    if (refused or failed_verify) and f["returned_device"]:
+        errs.append(("C06:connect:verification-failure-swallowed",
+                     "pyatv.connect() returned a device although the verification of %s was refused (%s); connect results in order: %s"
+                     % (", ".join(p for p, _ in refused) or "a protocol", failed_verify, f["ran"])))
+    if failed_verify and not f["returned_device"] and f["connect"] != "EAuthentication":
+        errs.append(("C06:connect:wrong-exception", "pyatv.connect(): a refused verification surfaced as %s" % f["connect_repr"]))
+    for n in impostors:
+        if f["keys"].get(n):
+            errs.append(("C06:connect:keys-enabled-without-verify", "%s: keys installed on the connection to an accessory that did not prove the paired identity" % n))
+    if f["stream"] is not None:
+        st = {"version": stream_version_of(case["facade"]["stream_features"]), "stored": "hap"}
+        for key, what in stream_errors(dict(case, stream=st), res):
+            errs.append((key.replace("airplay-" + st["version"], "airplay-embedded-raop"), what))
+    return errs
+
+
+def gen_facade(ctx, W, full):
+    out = []
+
+    def add(name, services, **kw):
+        out.append({"family": "facade:" + name, "spec": {}, "cvar": None, "f1": None, "f3": None, "wseed": W.wseed,
+                    "id_len": len(W.acc["A"].ident), "facade": dict({"services": services}, **kw)})
+
+    mrp = lambda role: {"proto": "mrp", "role": role}
+    comp = lambda role: {"proto": "companion", "role": role}
+    tunnel = lambda role: {"proto": "airplay", "kind": "tunnel", "role": role}
+    plain_ap = {"proto": "airplay", "kind": "plain"}
+    raop = {"proto": "raop"}
+    # (a) the refused verification at every position of the set-up order (AirPlay, Companion, MRP, RAOP)
+    add("mrp-impostor-alone", [mrp("impostor")])
+    add("mrp-impostor+raop", [mrp("impostor"), raop])
+    add("airplay+mrp-impostor+raop", [plain_ap, mrp("impostor"), raop])
+    add("companion-impostor-alone", [comp("impostor")])
+    add("companion-impostor+mrp-genuine", [comp("impostor"), mrp("genuine")])
+    add("companion-impostor+mrp-genuine+raop", [comp("impostor"), mrp("genuine"), raop])
+    add("airplay+companion-impostor+raop", [plain_ap, comp("impostor"), raop])
+    add("tunnel-impostor-alone", [tunnel("impostor")])
+    add("tunnel-impostor+mrp-genuine", [tunnel("impostor"), mrp("genuine")])
+    add("tunnel-impostor+companion-impostor+mrp-genuine+raop", [tunnel("impostor"), comp("impostor"), mrp("genuine"), raop])
+    add("tunnel-impostor+raop", [tunnel("impostor"), raop])
+    add("airplay+mrp-impostor", [plain_ap, mrp("impostor")])
+    add("all-impostors", [tunnel("impostor"), comp("impostor"), mrp("impostor"), raop])
+    # genuine accessories connect
+    add("mrp-genuine+raop", [mrp("genuine"), raop])
+    add("airplay+mrp-genuine+raop", [plain_ap, mrp("genuine"), raop])
+    # (b) the RAOP service embedded in an AirPlay 2 service (unified advertiser, no RAOP service), HAP
+    # credentials stored for AirPlay only; then stream_file
+    for feats in ("0x40000000,0x10040", "0x40000000,0x40", "0x40000000", "0x40000000,0x10000", "0x40000000,0x10800", "0x4A7FCA00,0x3C356BD0"):
+        for model in ("AirPort10,115", "AudioAccessory5,1", "AppleTV3,2"):
+            for role in ("impostor", "genuine"):
+                if not full and role == "genuine" and model != "AirPort10,115":
+                    continue
+                add("embedded-raop:%s:%s:%s" % (feats, model, role),
+                    [{"proto": "airplay", "kind": "unified", "features": feats, "model": model}],
+                    stream=True, stream_role=role, stream_features=feats)
+    return out
 
 
 # --------------------------------------------------------------------------- credentials replaced while the object exists
@@ -2085,6 +2385,8 @@ def eval_one(arg):
             res = evaluate_history(W, case)
         elif case.get("stream"):
             res = evaluate_stream(W, case)
+        elif case.get("facade"):
+            res = evaluate_facade(W, case)
         else:
             res = evaluate(W, case, protos=protos)
     except BaseException as ex:  # noqa
@@ -2114,6 +2416,11 @@ def summary(case, res):
         "observed": [{"proto": o["proto"], "verify_credentials": o["raw"], "raised_to_caller": o["surfaced_repr"] or None,
                       "keys_installed": o["keys"], "third_message_sent": o["m3"] is not None} for o in res.get("obs", [])],
         "verify1_direct": None if not res.get("v1") else res["v1"]["raw"],
+        "facade": None if not res.get("facade") else {
+            "services": case["facade"]["services"], "pyatv_connect_raised": res["facade"]["connect_repr"],
+            "device_returned": res["facade"]["returned_device"], "connects_in_order": res["facade"]["ran"],
+            "verify_credentials_outcomes": res["facade"].get("raw_connect"), "keys_installed": res["facade"]["keys"],
+            "stream_requests": None if not res["facade"]["stream"] else [list(x) for x in res["facade"]["stream"]["log"]][:10]},
         "stream": None if not case.get("stream") else dict(case["stream"], requests=[list(x) for x in res["obs"][0].get("log", [])][:12]),
         "announced": None if not case.get("announce") else {
             "stored_credentials": case["announce"]["stored"], "properties": case["announce"]["props"],
@@ -2127,6 +2434,19 @@ def summary(case, res):
 def judge_and_record(ctx, case, res, coq_items):
     if res.get("harness_error"):
         ctx.tie_broken("harness:" + case["family"], json.dumps({"case": case, "error": res["harness_error"]}, default=repr))
+        return
+    if case.get("facade"):
+        f = res["facade"]
+        ctx.case((case["family"],), nontrivial=True, sample=summary(case, res) if ctx.rng.random() < 0.05 else None)
+        ctx.count("family:facade")
+        ctx.count("impl:pyatv.connect:%s" % ("device" if f["returned_device"] else f["connect"]))
+        for key, what in facade_errors(case, res):
+            ctx.violation(key, what, {"case": case, "summary": summary(case, res)})
+        if coq_items is not None:
+            coq_items.append(("facade", world_of(case), case, res))
+            if f["stream"] is not None and res["judge"] is not None and res["judge"]["tables"] is not None:
+                st = {"version": stream_version_of(case["facade"]["stream_features"]), "stored": "hap"}
+                coq_items.append(("stream", world_of(case), dict(case, stream=st), res))
         return
     if case.get("stream"):
         o, j = res["obs"][0], res["judge"]
@@ -2290,13 +2610,20 @@ def run(ctx):
         k.endswith("forged-reply-accepted") for k, _ in stream_errors(scases[i], sres[i])) else 1)
     for i in order:
         judge_and_record(ctx, scases[i], sres[i], coq_items)
+    # 2e. the whole pyatv.connect(): a refused verification at every position of the set-up order; the
+    #     RAOP service embedded in an AirPlay 2 service, then stream_file
+    fcases = gen_facade(ctx, worlds[0], full=ctx.thorough)
+    for case, res in zip(fcases, eval_many(fcases, ())):
+        judge_and_record(ctx, case, res, coq_items)
     # 3. model vs implementation, evaluated inside Coq
     t_impl = time.time() - ctx.t0 - t_build
+    facade_items = [x[1:] for x in coq_items if x[0] == "facade"]
+    coq_items = [x for x in coq_items if x[0] != "facade"]
     stream_items = [x[1:] for x in coq_items if x[0] == "stream"]
     coq_items = [x for x in coq_items if x[0] != "stream"]
     sel_items = [x[1:] for x in coq_items if x[0] == "sel"]
     coq_items = [x for x in coq_items if x[0] != "sel"]
-    files = coq_files(coq_items, per=100) + coq_sel_files(sel_items) + coq_stream_files(stream_items)
+    files = coq_files(coq_items, per=100) + coq_sel_files(sel_items) + coq_stream_files(stream_items) + coq_facade_files(facade_items)
     res = common.coq_run_many([(n, t) for n, t, _ in files], ctx.pid, par=16)
     ctx.extra["phase_seconds"] = {"build": round(t_build, 1), "implementation_runs": round(t_impl, 1),
                                   "coq_cases": round(time.time() - ctx.t0 - t_build - t_impl, 1),
@@ -2314,7 +2641,7 @@ def run(ctx):
             if nbad <= 5:
                 W, case, r = chunk[b][-3:]
                 ctx.tie_broken("correspondence:model-differs-from-implementation", json.dumps({"case": case, "summary": summary(case, r)}, default=repr))
-    ctx.traces = sum(len(r["obs"]) + (1 if r["v1"] else 0) for _, _, r in coq_items) + len(sel_items) + len(stream_items)
+    ctx.traces = sum(len(r["obs"]) + (1 if r["v1"] else 0) for _, _, r in coq_items) + len(sel_items) + len(stream_items) + len(facade_items)
     ctx.extra["coq_case_files"] = len(files)
     ctx.rule = ("per world (fresh long-term and ephemeral keys from the seed; identifier lengths 17/36/1): the genuine reply; every single-bit flip "
                 "of session public key, encrypted data, identifier and signature (first world: all bits; others: a stride plus first/last byte; thorough: all "
@@ -2329,7 +2656,9 @@ def run(ctx):
                 "construction x credentials stored at connect (A, new key, re-paired as B, none) x who answers, for MrpProtocol, CompanionProtocol and an "
                 "AirPlayStream object (also as its second connect) - judged against what is stored when the object connects; the stream entry points AirPlayV1/AirPlayV2 "
                 "setup/play_url (version chosen by setting and by announcement) x stored credential kind x genuine / impostor / damaged replies, with the list of "
-                "requests sent on the connection.  Each case runs MrpProtocol.start, CompanionProtocol.start, verify_connection and (where both fields exist) "
+                "requests sent on the connection; the whole pyatv.connect() with 1-4 services (AirPlay incl. the remote-control tunnel, Companion, MRP, RAOP) and an "
+                "impostor behind the verifying protocol at every position of the set-up order; an AirPlay 2 service with unified advertiser info (no RAOP service, "
+                "HAP credentials stored for AirPlay only) connected through pyatv.connect() and then atv.stream.stream_file() through the embedded RAOP.  Each case runs MrpProtocol.start, CompanionProtocol.start, verify_connection and (where both fields exist) "
                 "SRPAuthHandler.verify1; non-trivial = the pairing data carried both fields; distinct by (recipe, credentials variant, faults, id length)")
     ctx.trusted += [
         "hand-written model coq/C06/Model.v (verify1, the three verify_credentials, error_handler, verify_connection mapping) tied by the differential run of this file, evaluated in Coq by vm_compute with the oracles instantiated by tables computed independently with the `cryptography` package",
@@ -2358,9 +2687,11 @@ def replay(ctx, path):
     if res.get("harness_error"):
         print("harness error:", res["harness_error"])
         return 1
-    errs = oracle(case, res) if res.get("judge") is not None and not case.get("stream") else []
+    errs = oracle(case, res) if res.get("judge") is not None and not case.get("stream") and not case.get("facade") else []
     if case.get("stream"):
         errs += stream_errors(case, res)
+    if case.get("facade"):
+        errs = facade_errors(case, res)
     if case.get("announce"):
         errs += selection_errors(world_of(case), case, res)
     print(json.dumps(summary(case, res), indent=1))
